@@ -167,7 +167,7 @@ Definition enc_access (x : accessjwt) : claimset :=
 Record idjwt := { i_iss : bs; i_sub : bs; i_aud : list bs; i_exp : Z; i_iat : Z; i_nonce : bs }.
 Definition enc_id (i : idjwt) : claimset :=
   [("iss", VStr (i_iss i)); ("sub", VStr (i_sub i)); ("aud", VList (i_aud i)); ("exp", VInt (i_exp i));
-   ("iat", VInt (i_iat i)); ("nonce", VStr (i_nonce i))]%string.
+   ("iat", VInt (i_iat i)); ("auth_time", VInt 0) (* declared, never set *); ("nonce", VStr (i_nonce i))]%string.
 Definition dec_id (c : claimset) : option idjwt :=
   do iss <- rd_str "iss" c; do sub <- rd_str "sub" c; do aud <- rd_list "aud" c; do exp <- rd_int "exp" c;
   do iat <- rd_int "iat" c; do nonce <- rd_str "nonce" c;
